@@ -1023,6 +1023,22 @@ theorem C09_reduced_fullVector (names : List τ) (m : List (Bool × α)) (ps : L
     (Reduced.fullVector ({ names := names, fixed := none } : Reduced τ α) ps) = .ok ps := by
   simp [Reduced.fullVector, h]
 
+/-- **The number type of the caller's vector does not touch the fixed values.** Whatever type the
+    free-parameter vector has (Python ints, an int64 array, floats) and however it is converted:
+    the vector handed to the wrapped model carries the stored fixed values unchanged at the fixed
+    positions and the converted given entries, in order, at the free ones. -/
+theorem C09_reduced_vector_cast {ι : Type} (cast : ι → α) (names : List τ) (m : List (Bool × α))
+    (ps : List ι) (h : ps.length = nFree m) :
+    Reduced.fullVectorCast cast ({ names := names, fixed := some m } : Reduced τ α) ps =
+      .ok (fillFree m (ps.map cast)) ∧
+    (((fillFree m (ps.map cast)).zip m).filter (fun x => !x.2.1)).map (·.1) = ps.map cast ∧
+    ∀ i (h1 : i < m.length) (h2 : i < (fillFree m (ps.map cast)).length),
+      (m[i]).1 = true → (fillFree m (ps.map cast))[i] = (m[i]).2 := by
+  have hl : (ps.map cast).length = nFree m := by simpa using h
+  refine ⟨?_, (C09_reduced_vector m (ps.map cast) hl).1, (C09_reduced_vector m (ps.map cast) hl).2⟩
+  unfold Reduced.fullVectorCast
+  exact (C09_reduced_fullVector names m (ps.map cast) hl).1
+
 /-! ## outputs -/
 
 /-- **Output order.** `set_outputs` accepts exactly lists of states / intermediary variables and
